@@ -290,6 +290,10 @@ Perts(s, a) ==
    \cup {P("com", f, "-") : f \in Com(s)}                        \* commitment <- the one of another valid proof
    \cup {P("rsp", f, "-") : f \in Rsp(s)}                        \* response <- the one of another valid proof
    \cup {P("oors", f, g) : f \in RangeChecked(s), g \in {"p", "m"}}  \* response <- +-2^bound, set directly
+   \* a commitment / response that is a residue modulo a public modulus M (N or N^2 of one of the keys in the statement)
+   \* <- the same value plus M: the same residue, so every verification equation still holds; only the validity check
+   \* "0 < x < M" of the verifier stands against it (for a value of any other kind the case does not apply)
+   \cup {P("modshift", f, g) : f \in Com(s) \cup Rsp(s), g \in {"n", "n2"}}
    ELSE {}) \cup
   (IF a = BaseAsg(s) THEN
         {P("pubpre", f, "-") : f \in Pub(s)}   \* a cheating prover: the statement is altered BEFORE proving with the true witness
@@ -306,6 +310,7 @@ Mechanisms(s, a, p) ==
       rangeBad == (\E i \in DOMAIN S.wit : a[i] \in OorPts(S.wit[i])) \/ p.kind = "oors"
       chalBad == (p.kind = "ctx" \/ post \cap FsCovered(s) # {}) /\ ~Degenerate(s, a)
   IN  (IF rangeBad THEN {"range"} ELSE {}) \cup (IF chalBad THEN {"challenge"} ELSE {})
+      \cup (IF p.kind = "modshift" THEN {"validity"} ELSE {})
       \cup {e.name : e \in {e \in S.eqs : e.fields \cap (post \cup falsified) # {}}}
 
 Verdict(s, a, p) ==
